@@ -8,6 +8,7 @@ HARNESS = "serverfn"
 HARNESS_ARGS = ["c13"]
 ALLOWED_AXIOMS = []
 READY = False
+RUN_IMPORT = "ServerFn.Run"
 
 RULE = "(filled in below)"
 TRUSTED = []
@@ -31,6 +32,15 @@ DEBUG_EXTRA = [0x20AC, 0x4E2D, 0x1F600, 0x2000, 0x200A, 0x200B, 0x200C, 0x200D, 
                0xFFF8, 0xFFF9, 0xFFFB, 0xFFFC, 0xFFFD, 0xFFFE, 0xFFFF, 0x10000, 0x1F3FB]
 DELIMS = ["|", "%", "=", "&", "+", "#", "?", "/", " ", "\"", "\\", "'", "\n", "\t", "\r", "\x00", "\x7f",
           ":", ";", ",", "{", "}", "<", ">"]
+
+
+def debug_safe(b):
+    """may a compared observation contain the `{:?}` form of this byte string?"""
+    try:
+        t = bytes(b).decode("utf-8")
+    except UnicodeDecodeError:
+        return True                     # Debug is only reached for valid UTF-8
+    return all(ord(ch) < 0x378 or ord(ch) in DEBUG_EXTRA for ch in t)
 
 
 def safe_char(rng):
@@ -113,18 +123,130 @@ def wire_like(rng):
     return list(s)
 
 
+STD64 = "ABCDEFGHIJKLMNOPQRSTUVWXYZabcdefghijklmnopqrstuvwxyz0123456789+/"
+URL64 = "ABCDEFGHIJKLMNOPQRSTUVWXYZabcdefghijklmnopqrstuvwxyz0123456789-_"
+
+
+def rand_bytes(rng, maxlen=14):
+    n = rng.choice([0, 1, 2, 3, 4, 5, 6, rng.randint(0, maxlen), rng.randint(30, 70) if rng.random() < 0.15 else 7])
+    return bytes(rng.choice([0, 255, 0x80, rng.randint(0, 255), rng.randint(0, 255)]) for _ in range(n))
+
+
+def b64_mutant(rng, alphabet, pad):
+    """a string offered to a base64 decoder: genuine encodings and near misses"""
+    import base64 as B
+    data = rand_bytes(rng)
+    enc = B.b64encode(data).decode()
+    if alphabet is URL64:
+        enc = enc.replace("+", "-").replace("/", "_")
+    if not pad:
+        enc = enc.rstrip("=")
+    r = rng.random()
+    other = STD64 if alphabet is URL64 else URL64
+    if r < 0.25:
+        return enc
+    s = list(enc)
+    k = rng.choice([1, 1, 1, 2])
+    for _ in range(k):
+        m = rng.random()
+        pos = rng.randint(0, len(s))
+        if m < 0.2 and s:
+            del s[rng.randrange(len(s))]
+        elif m < 0.35:
+            s.insert(pos, "=")
+        elif m < 0.5:
+            s.insert(pos, rng.choice(alphabet))
+        elif m < 0.6 and s:
+            s[rng.randrange(len(s))] = rng.choice([other[62], other[63], " ", "\n", "=", "é", ".", "%", "\x00"])
+        elif m < 0.7:
+            s.append(rng.choice(["\n", " ", "=", "==", "===", "A", "B", "\r\n", "é"]))
+        elif m < 0.8 and s:
+            s = s[:rng.randint(0, len(s))]
+        elif m < 0.9 and s:
+            # set trailing bits in the last symbol
+            i = len(s) - 1
+            while i >= 0 and s[i] == "=":
+                i -= 1
+            if i >= 0 and s[i] in alphabet:
+                s[i] = alphabet[alphabet.index(s[i]) | rng.choice([1, 2, 3, 8, 15])]
+        else:
+            s = list("".join(s).rstrip("=")) if pad else s + ["="] * ((-len(s)) % 4)
+    return "".join(s)
+
+
+PRE = ["http://h.t/p", "http://example.com/", "https://a.b.c/x/y/z", "http://localhost:3000/form", "http://h.t"]
+QCH = "abzAZ019%&=+-._*~!$()/:;?@[]|,"
+FCH = "abz019%&=+-._~!#?/|"
+
+
+def gen_query(rng, with_err=0.3):
+    parts = []
+    for _ in range(rng.choice([0, 1, 1, 2, 3, 4])):
+        r = rng.random()
+        if r < with_err:
+            parts.append(rng.choice(["__err", "__path"]) + rng.choice(["=", "=x", "=%2Fapi%2Ff", "", "=U2VydmVyRXJyb3J8eA%3D%3D"]))
+        elif r < 0.8:
+            k = "".join(rng.choice(QCH.replace("&", "").replace("=", "")) for _ in range(rng.randint(0, 4)))
+            v = "".join(rng.choice(QCH.replace("&", "")) for _ in range(rng.randint(0, 5)))
+            parts.append(k + rng.choice(["=", "=", "=", ""]) + v)
+        else:
+            parts.append(rng.choice(["", "=", "%", "%zz", "a=%C3%A9", "a=%FF", "+=+", "%5F%5Ferr=1", "__err", "__errx=1", "x__err=2",
+                                     "_%5Fpath=3"]))
+    return "&".join(parts)
+
+
+def gen_base(rng):
+    pre = rng.choice(PRE)
+    if pre == "http://h.t":
+        pre = pre + "/"        # Url::parse adds the root path itself; keep the identity shape
+    q = [] if rng.random() < 0.35 else [C.norm(gen_query(rng))]
+    f = [] if rng.random() < 0.7 else [C.norm("".join(rng.choice(FCH) for _ in range(rng.randint(0, 5))))]
+    return C.norm(pre), q, f
+
+
+def gen_path(rng):
+    r = rng.random()
+    if r < 0.6:
+        return "/api/" + rng.choice(["my_fn", "f", "deep/er/fn"]) + str(rng.randint(0, 10 ** 12))
+    return text(rng, 8)
+
+
 def generate(rng, tier):
-    n = 3000 if tier == "quick" else 60000
+    n = 6000 if tier == "quick" else 100000
     for _ in range(n):
         r = rng.random()
-        if r < 0.5:
+        if r < 0.22:
             cust, kind, payload = gen_err(rng)
             yield dict(case=[0, cust, kind, payload], kind="err-ser-de")
-        elif r < 0.6:
+        elif r < 0.27:
             cust, kind, payload = gen_err(rng, any_char)
             yield dict(case=[0, cust, kind, payload], kind="err-ser-de-anyunicode")
+        elif r < 0.45:
+            w = wire_like(rng)
+            yield dict(case=[1, rng.choice([0, 1]), w], kind="err-de-bytes", compare=debug_safe(w))
+        elif r < 0.52:
+            yield dict(case=[2, list(rand_bytes(rng))], kind="b64-binary-format")
+        elif r < 0.62:
+            yield dict(case=[3, C.norm(b64_mutant(rng, STD64, False))], kind="b64-decode-malformed")
+        elif r < 0.80:
+            cust, kind, payload = gen_err(rng, any_char if rng.random() < 0.3 else safe_char)
+            pre, q, f = gen_base(rng)
+            yield dict(case=[4, cust, kind, payload, C.norm(gen_path(rng)), pre, q, f], kind="url-error-roundtrip")
+        elif r < 0.92:
+            import base64 as B
+            if rng.random() < 0.5:
+                s = b64_mutant(rng, URL64, True)
+            else:
+                w = bytes(wire_like(rng))
+                s = B.urlsafe_b64encode(w).decode()
+                if rng.random() < 0.3:
+                    s = s.rstrip("=") if rng.random() < 0.5 else s + "="
+            w = b64_canonical(s, URL64, True)
+            yield dict(case=[5, rng.choice([0, 1]), C.norm(s)], kind="url-decode-err",
+                       compare=(w is None or debug_safe(w)))
         else:
-            yield dict(case=[1, rng.choice([0, 1]), wire_like(rng)], kind="err-de-bytes")
+            pre, q, f = gen_base(rng)
+            yield dict(case=[6, pre, q, f], kind="strip-error-info")
 
 
 # ------------------------------------------------------------------ oracle (independent of the model)
@@ -143,7 +265,54 @@ def ref_err(cust, kind, payload):
     return [kind, payload]
 
 
+def check_de(data, impl):
+    """what `de(data)` must satisfy by the property text alone"""
+    try:
+        s = data.decode("utf-8")
+    except UnicodeDecodeError:
+        return None if impl[0] == 6 else "invalid UTF-8 was not reported as a Deserialization error"
+    if "|" in s:
+        tag, rest = s.split("|", 1)
+        if tag in TAGS[1:]:
+            want = [TAGS.index(tag), list(rest.encode())]
+            return None if impl == want else "a well-formed wire string decoded to a different error"
+        if tag != TAGS[0]:
+            return None if impl[0] == 6 else "unknown kind was not reported as a Deserialization error"
+        return None
+    return None if impl[0] == 6 else "missing delimiter was not reported as a Deserialization error"
+
+
+def b64_canonical(s, alphabet, pad):
+    """decoded bytes if `s` is the canonical encoding of something, else None (written from RFC 4648)"""
+    if pad:
+        if len(s) % 4 != 0:
+            return None
+        body = s.rstrip("=")
+        if len(s) - len(body) > 2:
+            return None
+    else:
+        body = s
+    if any(ch not in alphabet for ch in body) or len(body) % 4 == 1:
+        return None
+    bits = 0
+    nbits = 0
+    out = bytearray()
+    for ch in body:
+        bits = (bits << 6) | alphabet.index(ch)
+        nbits += 6
+        if nbits >= 8:
+            nbits -= 8
+            out.append((bits >> nbits) & 255)
+    if bits & ((1 << nbits) - 1):
+        return None
+    if pad and (len(body) + (len(s) - len(body))) % 4 != 0:
+        return None
+    return bytes(out)
+
+
 def oracle(item, impl):
+    import base64 as B
+    import urllib.parse as U
     case = item["case"]
     op = case[0]
     if isinstance(impl, str):
@@ -158,22 +327,49 @@ def oracle(item, impl):
             return "de(ser(e)) != e: kind or message did not survive the wire format"
         return None
     if op == 1:
-        # any byte string must decode to *some* error value (no panic); a genuine wire string of a
-        # standard kind must decode to exactly that kind and message
-        data = bytes(case[2])
-        try:
-            s = data.decode("utf-8")
-        except UnicodeDecodeError:
-            return None if impl[0] == 6 else "invalid UTF-8 was not reported as a Deserialization error"
-        if "|" in s:
-            tag, rest = s.split("|", 1)
-            if tag in TAGS[1:]:
-                want = [TAGS.index(tag), list(rest.encode())]
-                return None if impl == want else "a well-formed wire string decoded to a different error"
-            if tag != TAGS[0]:
-                return None if impl[0] == 6 else "unknown kind was not reported as a Deserialization error"
-            return None
-        return None if impl[0] == 6 else "missing delimiter was not reported as a Deserialization error"
+        return check_de(bytes(case[2]), impl)
+    if op == 2:
+        data = bytes(case[1])
+        if bytes(impl[0]) != B.b64encode(data).rstrip(b"="):
+            return "into_encoded_string is not unpadded standard base64"
+        return None if impl[1] == [0, list(data)] else "from_encoded_string(into_encoded_string(b)) != b"
+    if op == 3:
+        want = b64_canonical(bytes(case[1]).decode(), STD64, False)
+        if want is None:
+            return None if impl[0] == 1 else "non-canonical base64 accepted"
+        return None if impl == [0, list(want)] else "canonical base64 not decoded to its bytes"
+    if op == 4:
+        _, cust, kind, payload, path, pre, q, f = case
+        if impl and impl[0] == -1:
+            return "to_url rejected an absolute base URL: " + C.show_bytes(impl[1])
+        if impl[1] != [path]:
+            return "__path read back from the URL differs from the server function's path"
+        if impl[2] != [ref_err(cust, kind, payload)]:
+            return "error read back from the URL differs: kind or message did not survive the URL-embedded form"
+        if not bytes(impl[0]).startswith(bytes(pre)):
+            return "to_url changed the base URL"
+        return None
+    if op == 5:
+        s = bytes(case[2]).decode()
+        w = b64_canonical(s, URL64, True)
+        if w is None:
+            return None if impl[0] == 6 else "malformed base64 in __err was not reported as a Deserialization error"
+        return check_de(w, impl)
+    if op == 6:
+        _, pre, q, f = case
+        before = U.parse_qsl(bytes(q[0]).decode(), keep_blank_values=True, errors="replace") if q else []
+        out = bytes(impl).decode()
+        rest = out[len(bytes(pre)):]
+        if not out.startswith(bytes(pre).decode()):
+            return "strip_error_info changed the URL before the query"
+        frag = None
+        if "#" in rest:
+            rest, frag = rest.split("#", 1)
+        if (frag is None) != (not f) or (f and frag != bytes(f[0]).decode()):
+            return "strip_error_info changed the fragment"
+        after = U.parse_qsl(rest[1:] if rest.startswith("?") else rest, keep_blank_values=True, errors="replace")
+        want = [(k, v) for (k, v) in before if k not in ("__err", "__path")]
+        return None if after == want else "strip_error_info did not remove exactly the __err/__path pairs"
     return None
 
 
@@ -183,6 +379,8 @@ def nontrivial(item, model):
         return len(case[3]) > 0
     if case[0] == 1:
         return len(case[2]) > 0
+    if case[0] in (2, 3):
+        return len(case[1]) > 0
     return True
 
 
@@ -194,4 +392,19 @@ def describe(it):
             ["NoCustomError", "Code"][cust], KINDS[kind], payload if kind == 0 else C.show_bytes(payload))
     if case[0] == 1:
         return "ServerFnError<%s>::de(%r)" % (["NoCustomError", "Code"][case[1]], C.bs(case[2]))
+    if case[0] == 2:
+        return "CborEncoding::from_encoded_string(into_encoded_string(%r))" % (C.bs(case[1]),)
+    if case[0] == 3:
+        return "CborEncoding::from_encoded_string(%r)" % (C.show_bytes(case[1]),)
+    if case[0] == 4:
+        _, cust, kind, payload, path, pre, q, f = case
+        base = C.show_bytes(pre) + ("?" + C.show_bytes(q[0]) if q else "") + ("#" + C.show_bytes(f[0]) if f else "")
+        return "ServerFnUrlError::new(%r, ServerFnError<%s>::%s(%r)).to_url(%r), then read __path/__err back" % (
+            C.show_bytes(path), ["NoCustomError", "Code"][cust], KINDS[kind],
+            payload if kind == 0 else C.show_bytes(payload), base)
+    if case[0] == 5:
+        return "ServerFnUrlError::<ServerFnError<%s>>::decode_err(%r)" % (["NoCustomError", "Code"][case[1]], C.show_bytes(case[2]))
+    if case[0] == 6:
+        _, pre, q, f = case
+        return "strip_error_info(%r)" % (C.show_bytes(pre) + ("?" + C.show_bytes(q[0]) if q else "") + ("#" + C.show_bytes(f[0]) if f else ""),)
     return None
